@@ -104,7 +104,7 @@ pub fn property() -> Property {
         subchecks: vec![SubCheck {
             name: "gradual-vs-oneshot-performance",
             rule: "G-MAP (all modes + converts, <=40 objects) x G-DIFF (mods in all representations incl. lazer Classic, lazer flag unset/true/false, clock rates, overrides) x walk of 1-12 steps mixing next, nth(k<=4), last x per-step score state (2/3 consistent with the prefix reached, 1/3 arbitrary counts up to 2N). Oracle: every Some(attrs) is same-value-equal (pp, all components, effective miss count, deviation, embedded difficulty) to ModePerformance::new(&map).difficulty(D).passed_objects(i).state(s).calculate() where i is the object count the returned difficulty reports; None iff nothing remained. Non-trivial: >=2 successful steps, a state with non-300 judgements or inconsistent with the prefix, pp>0 at some step.",
-            quick: 20_000,
+            quick: 60_000,
             thorough: 300_000,
             tape_len: 1500,
             f: case,
